@@ -17,7 +17,7 @@ import psvlib
 
 LEVEL = "proof"
 RESERVED_SPEC = ["BITPIX", "SIMPLE", "TYPE", "ORDER", "NAXIS", "PERIOD", "EXTEND", "COMMENT"]
-REJECT_TOKENS = {"reserved", "shortchar", "haseq", "haslower", "keytoolong", "valuetoolong"}
+REJECT_TOKENS = {"reserved", "shortchar", "haseq", "haslower", "keytoolong", "valuetoolong", "edgeblank", "keynonprint", "valuenonprint"}
 INT_RE = re.compile(r"^[ \t\n\v\f\r]*([+-]?[0-9]+)")
 FLOAT_FULL = re.compile(r"^[+-]?([0-9]+\.?[0-9]*|\.[0-9]+)([eE][+-]?[0-9]+)?$")
 
@@ -37,13 +37,27 @@ def split_line(line):
     return a, b
 
 
+def printable(s):
+    return all(32 <= ord(ch) <= 126 for ch in s)
+
+
 def key_class(k):
-    """classes of keys which write_key accepts but cfitsio does not store verbatim (known findings)"""
+    """classes of keys which cfitsio does not store verbatim; write_key refuses them since fixes/C16-5.diff"""
     if k == "" or k.strip(" ") == "": return "empty-or-blank-key"
     if k[0] == " " or k[-1] == " ": return "key-with-leading-or-trailing-blank"
     if k.startswith("HIERARCH "): return "explicit-HIERARCH-prefix"
     if k in ("END", "HISTORY", "CONTINUE"): return "commentary-keyword-" + k
+    if not printable(k): return "non-printable-character-in-key"
     return None
+
+
+def spec_accepts(k, v):
+    """what write_key has to accept, written out from the documentation of the card format (the right-hand side of theorem
+    C16_validate_iff, independently of the Lean model)"""
+    if any(k.startswith(p) for p in RESERVED_SPEC) or key_class(k) is not None or not printable(v): return False
+    d = len(v) + v.count("'")
+    if len(k) <= 8: return re.match(r"^[A-Z0-9]+$", k) is not None and d <= 68
+    return "=" not in k and not any("a" <= ch <= "z" for ch in k) and len(k) <= 66 and len(k) + d <= 67
 
 
 def pad_of(k, v):
@@ -84,14 +98,17 @@ class Oracle:
                 if any(k.startswith(p) for p in RESERVED_SPEC):
                     bad.append(("write:reserved-accepted", "reserved keyword %r was accepted" % k))
                 if "=" in k: bad.append(("write:malformed-accepted", "key %r containing '=' was accepted" % k))
+                cls = key_class(k) or (None if printable(v) else "control-character-in-value")
+                if cls: bad.append(("write:unstorable-accepted:" + cls, "write_key accepted %r=%r, which a FITS header cannot hold as it is (%s)" % (k, v, cls)))
+                elif not spec_accepts(k, v): bad.append(("write:invalid-accepted", "write_key accepted %r=%r, which the card format has no room for or the key syntax forbids" % (k, v)))
             else:
                 if store != ref:
                     bad.append(("write:reject-changed-store", "write of %r was rejected (%s) but the store changed: %r -> %r" % (k, tok, ref, store)))
                 if tok not in REJECT_TOKENS and tok != "threw":
                     bad.append(("write:unexpected-exception", "write of %r raised an unexpected exception (%s)" % (k, tok)))
-                # plainly valid requests must be accepted
-                if re.match(r"^[A-Z0-9]{1,8}$", k) and not any(k.startswith(p) for p in RESERVED_SPEC) and len(v) + v.count("'") <= 68:
-                    bad.append(("write:valid-rejected", "valid short key %r with a value of %d characters was rejected (%s)" % (k, len(v), tok)))
+                # valid requests must be accepted
+                if spec_accepts(k, v):
+                    bad.append(("write:valid-rejected", "valid key %r with the printable value %r (%d characters) was rejected (%s)" % (k, v, len(v), tok)))
             self.ref = store
         elif kind == "X":
             k = unhex(op[1]); present = self.lookup(k) is not None
@@ -145,7 +162,7 @@ class Oracle:
                             sub = "quote" if "'" in b else "value"
                             why = (sub, a, "value %r of key %r came back as %r" % (b, a, y)); break
                         # the exact statement of theorem C16_accepted_survive_fits (padOf), evaluated on the implementation's output
-                        if key_class(a) is None and all(32 <= ord(ch) < 127 for ch in a + b) and y != b + " " * pad_of(a, b):
+                        if key_class(a) is None and printable(a + b) and y != b + " " * pad_of(a, b):
                             why = ("pad", a, "value %r of key %r came back as %r, the theorem says %d padding blanks" % (b, a, y, pad_of(a, b))); break
                 if why:
                     cls = None
@@ -240,7 +257,7 @@ def run(ctx):
     ctx.coverage["oracle_signatures"] = dict(sigs)
     ctx.coverage["correspondence_mismatches"] = mism
     ctx.assumptions += [
-        "keys and values are printable ASCII (plus TAB in one value); bytes >= 0x80 (where isupper/islower on a negative char is undefined) are not generated",
+        "short keys with bytes >= 0x80 (where isupper on a negative char is undefined) are not generated; long keys and values with control characters and bytes >= 0x80 are generated (rejected since fixes/C16-5)",
         "cfitsio 4.2.0 string-card routines are modelled by hand (ffs2c, ffmkky, ffprec, ffgrec, ffgknm, ffpsvc) and compared with cfitsio itself on every run; the rest of the FITS file is C06's business",
         "double formatting/parsing (operator<<, operator>> for double) is not modelled: the text C++ produced enters the model, read_key<double> is judged by Python's float() on fully numeric strings",
         "allocation failure paths of write_key/remove_key are not exercised (C20)",
